@@ -102,6 +102,9 @@ def ensure_mir(log=sys.stderr):
         files = sorted((os.path.getmtime(os.path.join(d, f)), f) for f in os.listdir(d) if f.endswith('.mir'))
         for _, f in files[:-3]:
             os.unlink(os.path.join(d, f))
+        for f in os.listdir(d):
+            if f.endswith('.mir.err') and not os.path.exists(os.path.join(d, f[:-4])):
+                os.unlink(os.path.join(d, f))
         return out, th, time.time() - t
 
 
